@@ -9,6 +9,9 @@ package db
 //@   pure
 //@   ensures result != nil
 
+//@ extern fmt.Sprintf
+//@   pure
+
 //@ extern fmt.Errorf
 //@   pure
 //@   ensures result != nil
